@@ -68,6 +68,40 @@ func runC12(c *Ctx) {
 			}
 		}
 		c.Floor("O1", "RET Binding returns", n, 1)
+		// a pod that is being deleted is never reported in a status that counts as allocated and alive (Running, Bound,
+		// Binding): it is Releasing. Gang counters, victim selection and the idle/releasing split all read this.
+		nAlive := 0
+		for _, b := range gts.Blocks {
+			ret, ok := b.Instrs[len(b.Instrs)-1].(*ssa.Return)
+			if !ok {
+				continue
+			}
+			k, isC := ret.Results[0].(*ssa.Const)
+			if !isC {
+				continue
+			}
+			v, _ := constant.Int64Val(constant.ToInt(k.Value))
+			alive := false
+			for _, nm := range []string{"Running", "Bound", "Binding", "Allocated"} {
+				if cv, ok := p.ConstInt(pkgPodStatus, nm); ok && cv == v {
+					alive = true
+				}
+			}
+			if !alive {
+				continue
+			}
+			nAlive++
+			notDeleted := fx.allPathsSatisfy(ret, func(s FactSet) bool {
+				_, ok := hasFact(s, func(f Fact) bool {
+					return f.T.Op == "bin" && len(f.T.Args) == 2 && strings.HasSuffix(f.T.Args[0].String(), "DeletionTimestamp") && f.T.Args[1].isNilConst() &&
+						((f.T.Name == "==" && f.Pol) || (f.T.Name == "!=" && !f.Pol))
+				})
+				return ok
+			})
+			c.Check(notDeleted, "O9", "RET", fmt.Sprintf("%s: status %d (allocated and alive) only for a pod that is not being deleted", funcKey(gts), v), instrPos(ret), "DeletionTimestamp == nil on every path",
+				"a pod with a deletion timestamp can be reported as running / bound / binding: a terminating gang member counts as active (the gang looks complete and a lone replacement is bound below the minimum), and its resources count as used instead of releasing")
+		}
+		c.Floor("O9", "RET alive statuses of getTaskStatus", nAlive, 3)
 	}
 	if ctor := c.Anchor("O1", pkgPodInfo, "", "NewTaskInfoWithBindRequest"); ctor != nil {
 		// NodeName: pod's node, else the request's SelectedNode
@@ -80,6 +114,23 @@ func runC12(c *Ctx) {
 					if strings.HasSuffix(termOf(e).String(), ".Spec.SelectedNode") {
 						okNode = true
 					}
+				}
+				// … and only as a fall-back: the node the pod is really bound to wins. The request's node is taken on
+				// an edge that has established pod.Spec.NodeName == "" (a request can name another node than the one
+				// a late bind attempt put the pod on — the pod is then charged to the wrong node for its lifetime)
+				for i, e := range phi.Edges {
+					if !strings.HasSuffix(termOf(e).String(), ".Spec.SelectedNode") || i >= len(phi.Block().Preds) {
+						continue
+					}
+					fs := fx.edgeFacts(phi.Block().Preds[i], phi.Block(), 0)
+					_, unbound := hasFact(fs, func(ft Fact) bool {
+						if ft.T.Op != "bin" || len(ft.T.Args) != 2 || !strings.Contains(ft.T.Args[0].String(), ".Spec.NodeName") {
+							return false
+						}
+						return (ft.T.Name == "==" && ft.Pol) || (ft.T.Name == "!=" && !ft.Pol)
+					})
+					c.Check(fs.Bottom || unbound, "O1", "DOM", funcKey(ctor)+": the request's node is used only for a pod that has no node yet", instrPos(in), "pod.Spec.NodeName == \"\" on the edge that takes SelectedNode",
+						"the BindRequest's SelectedNode overrides the node the pod is actually bound to: after a late bind by an earlier request's attempt the pod is charged to the new request's node, and its real node's resources look idle and are handed out again")
 				}
 			}
 		}
